@@ -105,6 +105,8 @@ def run(chk):
             if rng.random() < 0.6:
                 m["specific heat"] = float(round(rng.uniform(900, 2500)))
             if rng.random() < 0.5:
+                m["forearc cooling factor"] = rng.choice([1.0, 5.0, 20.0])
+            if rng.random() < 0.5:
                 m["thermal expansion coefficient"] = round(rng.uniform(2e-5, 4e-5), 7)
             if rng.random() < 0.6:
                 # the region above the slab top belongs to the feature too (the model cools the mantle wedge there)
@@ -117,6 +119,23 @@ def run(chk):
             q, d = line_query(rng, wj, False, f, spread=rng.choice([0.2, 0.5]))
             if d >= 0:
                 slab_plan.append((cs.p3(slot, q, d, [[1, 0, 0], [4, 0, 0]]), wj, m, d))
+        # a vertical profile through the top of the slab in 1.5 km steps (the cold core sits just above / below it)
+        a, b = f["coordinates"][0], f["coordinates"][-1]
+        dx, dy = b[0] - a[0], b[1] - a[1]
+        L = math.hypot(dx, dy)
+        nx, ny = -dy / L, dx / L
+        if (f["dip point"][0] - a[0]) * nx + (f["dip point"][1] - a[1]) * ny < 0:
+            nx, ny = -nx, -ny
+        th0 = math.radians(f["segments"][0]["angle"][0])
+        if len(f["coordinates"]) == 2 and 0.1 < th0 < 1.4:
+            tt = rng.uniform(0.3, 0.7)
+            u = rng.uniform(3e4, 0.8 * f["segments"][0]["length"] * math.cos(th0))
+            px, py = a[0] + tt * dx + u * nx, a[1] + tt * dy + u * ny
+            top = f.get("min depth", 0.0) + u * math.tan(th0)
+            for k in range(-40, 28):
+                d = float(round(top + 1500.0 * k))
+                if d >= 0:
+                    slab_plan.append((cs.p3(slot, (px, py, 1000e3 - d), d, [[1, 0, 0], [4, 0, 0]]), wj, m, d))
     impl, model = cs.run()
     chk.evaluations = len(impl)
     bad = chk.correspond(impl, model, cs, max_ulp=0)
